@@ -7,9 +7,13 @@ import (
 )
 
 var commands = map[string]func([]string){
-	"scan": cmdScan,
-	"gen":  cmdGen,
+	"scan":  cmdScan,
+	"gen":   cmdGen,
 	"infos": cmdInfos,
+	"c02":   cmdC02,
+	"c03":   cmdC03,
+	"c05":   cmdC05,
+	"c20":   cmdC20,
 }
 
 func main() {
